@@ -21,7 +21,12 @@ SuppA == Arr(<<Z2I(128), PA, B1>>)
 KdfA == Arr(<<Neg2I(7), PartyA, Arr(<<Nil, Nil, Nil>>), SuppA, B1, B0>>)
 
 HdrUtf8Ct == Map(<< <<Nat2I(3), Tx(<<195,169,195,169,47,230,151,165>>)>>, <<Tx(<<230,151,165>>), Tx(<<240,159,152,128>>)>> >>)   \* content type "éé/日"
+(* extras under every label at an encoding-width boundary *)
+BLabels == <<Nat2I(23), Nat2I(24), Z2I(255), Z2I(256), Z2I(65535), Z2I(65536), Neg2I(24), Neg2I(25), Neg2I(256), Neg2I(257), I63max, N63>>
+BoundaryExtras == [i \in 1..Len(BLabels) |-> <<BLabels[i], Nat2I(i)>>]
 AccItems == <<
+  <<"Header", "", Map(BoundaryExtras)>>, <<"CoseKey", "", Map(<< <<Nat2I(1), Nat2I(1)>> >> \o BoundaryExtras)>>,
+  <<"ClaimsSet", "", Map(<< <<Nat2I(38), Nat2I(1)>>, <<Neg2I(65537), Nat2I(2)>>, <<Neg2I(70000), Nat2I(3)>>, <<N63, Nat2I(4)>> >>)>>,
   <<"Header", "", EmptyMap>>, <<"Header", "", HdrUtf8Ct>>, <<"CoseSign1", "", Arr(<<Bs(Enc(HdrUtf8Ct)), HdrUtf8Ct, B1, B0>>)>>, <<"Header", "", HdrFull>>, <<"Header", "", HdrCs2>>,
   <<"ProtectedHeader", "", HdrFull>>,
   <<"CoseSignature", "", SigAlg>>, <<"CoseSignature", "", SigNested>>,
